@@ -119,6 +119,12 @@ def check(run, replay=None):
             gens.append(dict(id="generate %s %s" % (cmd, name), args=["generate", cmd, "-f", spec, "-t", "{T}", "--name", "verif"], output="{T}", lib=cmd, spec=spec))
         gens.append(dict(id="generate model %s" % name, args=["generate", "model", "-f", spec, "-t", "{T}"], output="{T}", lib="model", spec=spec))
         gens.append(dict(id="generate markdown %s" % name, args=["generate", "markdown", "-f", spec, "-t", "{T}", "--output", "doc.md"], output="{T}", lib="markdown", spec=spec))
+    # a generation with a user template directory that overrides a shared sub-template (header): what it loads must
+    # stay with it - the stock generations that follow in the same process render the stock template
+    td = os.path.join(work, "tpl"); os.makedirs(td, exist_ok=True)
+    stock = open(os.path.join(REPO, "generator", "templates", "header.gotmpl")).read().split("\n")
+    open(os.path.join(td, "header.gotmpl"), "w").write("\n".join(stock[:1] + ["", "// Licensed to ACME Corp (custom header template)"] + stock[1:]))
+    gens.append(dict(id="generate model wide custom-header", args=["generate", "model", "-f", wide, "-t", "{T}", "--template-dir", td, "--allow-template-override"], output="{T}"))
     gens.append(dict(id="generate server ties keep-spec-order", args=["generate", "server", "-f", ties, "-t", "{T}", "--name", "verif", "--keep-spec-order"], output="{T}"))
     others = [
         dict(id="flatten wide", args=["flatten", wide, "-o", "{T}/out.json"], output="{T}/out.json"),
@@ -147,7 +153,7 @@ def check(run, replay=None):
     # the sequential repetitions of different jobs are independent: one driver process per group of jobs
     # every driver process starts with a generation under OTHER language options (markdown): what a generation
     # writes must not depend on what the process generated before
-    gens = sorted(gens, key=lambda g: 0 if "markdown" in g["id"] else 1)
+    gens = sorted(gens, key=lambda g: 0 if "markdown" in g["id"] else (1 if "custom-header" in g["id"] else 2))
     groups = [gens[0::2], gens[1::2], others[0::2], others[1::2]]
     jobdir = {}
 
